@@ -18,6 +18,9 @@ LEAN = os.path.join(ROOT, "lean")
 HARNESS = os.path.join(ROOT, "harness")
 RUNS = os.path.join(ROOT, "runs")          # scratch output of the harness / driver (git-ignored)
 REPLAYS = os.path.join(ROOT, "replays")    # replay files of reported violations (git-ignored)
+# the implementation under verification; MATREEX_REPO is for background runs in a snapshot of /verif against a snapshot of
+# /repo only (vp run --with-repo): the registered commands never set it
+REPO = os.environ.get("MATREEX_REPO", "/repo")
 ALLOWED_AXIOMS = {"propext", "Classical.choice", "Quot.sound"}
 FORBIDDEN = re.compile(r"\bsorry\b|\badmit\b|^\s*axiom\s|native_decide|bv_decide|implemented_by|\bunsafe\s|maxHeartbeats\s+0", re.M)
 PARTIAL = re.compile(r"\bpartial\s+def\b")
@@ -53,10 +56,24 @@ class Lock:
 
 
 # ----------------------------------------------------------------------------- translate
+def retarget():
+    """snapshot runs only: point the three cargo manifests at MATREEX_REPO"""
+    if REPO == "/repo" or ROOT == "/verif":
+        return
+    for d in ("harness", "probes", "fmtcfg"):
+        f = os.path.join(ROOT, d, "Cargo.toml")
+        if os.path.exists(f):
+            t = open(f).read()
+            t2 = t.replace('path = "/repo"', 'path = "%s"' % REPO)
+            if t2 != t:
+                open(f, "w").write(t2)
+
+
 def translate():
     """run every translator; returns dict name -> report"""
+    retarget()
     rep = {}
-    rc, out = sh([sys.executable, os.path.join(ROOT, "translate", "t2.py"), "/repo/src",
+    rc, out = sh([sys.executable, os.path.join(ROOT, "translate", "t2.py"), REPO + "/src",
                   os.path.join(LEAN, "Matreex", "Gen", "Core.lean")])
     try:
         rep["t2"] = json.loads(out)
@@ -64,7 +81,7 @@ def translate():
         rep["t2"] = {"error": out[-2000:], "translated": [], "untranslated": [["*", "translator crashed"]]}
     t1 = os.path.join(ROOT, "translate", "t1.py")
     if os.path.exists(t1):
-        rc, out = sh([sys.executable, t1, "/repo/src", os.path.join(LEAN, "Matreex", "Gen")])
+        rc, out = sh([sys.executable, t1, REPO + "/src", os.path.join(LEAN, "Matreex", "Gen")])
         try:
             rep["t1"] = json.loads(out)
         except Exception:
